@@ -1,5 +1,324 @@
-import HailVerif.Model.RangeRead
+import HailVerif.Proofs.RangeRead
+/-!
+# C23 — Ranged reads return exactly the requested bytes
+
+Subject: `HailVerif.RangeRead`, the model of `AsyncFS.open_from / read_from / read_range` and of the stream classes of the local,
+Google Cloud Storage, S3 and Azure Blob backends (`hailtop/aiotools/fs/fs.py`, `aiotools/local_fs.py`,
+`aiocloud/aiogoogle/client/storage_client.py`, `aiocloud/aioaws/fs.py`, `aiocloud/aioazure/fs.py`), tied to the code by the
+correspondence check `harness/props/c23.py`.
+
+All theorems quantify over every blob, offset, length, read pattern and every way `ch` the service may cut a body into pieces
+(`hch : ∀ b, (ch b).flatten = b`).
+
+Findings on the unchanged tree (both in `AzureReadableStream.read(-1)`; see `azure_open_from_exact_refuted`,
+`azure_read_from_refuted`): the full statement `OpenFromExact` does not hold for Azure; it is proved for the other three
+backends and, for Azure, under the hypothesis that the pattern contains no `read(-1)` (`azure_open_from_exact_partial`).
+-/
 namespace HailVerif.C23
 open HailVerif.RangeRead
-theorem placeholder : (1 : Nat) = 1 := rfl
+
+/-! ## Range header and service semantics -/
+
+/-- A length of 0 never reaches the header construction (`assert length >= 1`); `open_from` answers it with an empty stream. -/
+theorem rangeSpec_rejects_zero (start : Nat) : rangeSpec start (some 0) = none := rfl
+
+/-- `serve (rangeHeader start len) = blob[start : start+len]`: for every blob, offset and length ≥ 1 (or no length) the range the
+GCS/S3 code asks for selects exactly the wanted bytes — clipped at EOF — when the offset lies inside the blob, and is answered 416
+exactly when it does not.  (Includes the last byte `start + len = size`, and `start + len > size`.) -/
+theorem serve_rangeHeader (blob : Blob) (start : Nat) (len : Option Nat) (hlen : len ≠ some 0) :
+    ∃ r, rangeSpec start len = some r ∧ rangeHeader start len = some (render r) ∧
+      serve blob r = if start < blob.length then .part (wanted blob start len) else .unsat := by
+  cases len with
+  | none => exact ⟨_, rfl, rfl, by simp [serve, wanted]⟩
+  | some l =>
+    have hl : 1 ≤ l := by
+      rcases Nat.eq_zero_or_pos l with h | h
+      · subst h; exact absurd rfl hlen
+      · exact h
+    refine ⟨⟨start, some (start + l - 1)⟩, by simp [rangeSpec, hl], by simp [rangeHeader, rangeSpec, hl], ?_⟩
+    have h1 : ¬ (start + l - 1 < start) := by omega
+    have h2 : start + l - 1 - start + 1 = l := by omega
+    simp [serve, wanted, h1, h2]
+
+/-- the wanted bytes are clipped at the end of the blob -/
+theorem wanted_clipped (blob : Blob) (start l : Nat) (h : blob.length ≤ start + l) :
+    wanted blob start (some l) = blob.drop start := by
+  simp only [wanted, slice]
+  exact List.take_of_length_le (by simp; omega)
+
+/-- Azure: `download_blob(offset=start, length=len)` gives the wanted bytes iff the offset lies inside the blob -/
+theorem azDownload_exact (blob : Blob) (start : Nat) (len : Option Nat) :
+    azDownload blob start len = if start < blob.length then some (wanted blob start len) else none := rfl
+
+/-! ## `TruncatedReadableBinaryIO` under any chunking of the underlying reads -/
+
+/-- A reader limited to `lim` bytes over a file-like object that holds `ps` (pieces: its `read(n)` may return short at every piece
+boundary) never yields a byte past the limit, whatever sequence of `read(n)`, `read(-1)`, `readexactly(n)` and drain loops is run:
+the bytes handed out are always a prefix of the first `lim` bytes. -/
+theorem truncated_reader_within_limit (ch : Blob → List Blob) (hch : ∀ b, (ch b).flatten = b) (ps : List Blob)
+    (hps : ∀ p ∈ ps, p ≠ []) (lim : Nat) (ops : List Op) :
+    (run ch ps.flatten (.file { pieces := ps, offset := 0, limit := some lim }) ops []).2.1 <+: ps.flatten.take lim := by
+  have hg : Good false ps.flatten (.file { pieces := ps, offset := 0, limit := some lim }) (ps.flatten.take lim) :=
+    ⟨⟨hps, fun l hl => by cases hl; exact Nat.zero_le _⟩, by simp [FileSt.content], by simp⟩
+  cases hr : run ch ps.flatten (.file { pieces := ps, offset := 0, limit := some lim }) ops [] with
+  | mk st rest =>
+    obtain ⟨out, s'⟩ := rest
+    obtain ⟨d, r', ho, hr', _⟩ := run_spec false ch hch ps.flatten ops _ _ [] hg (by simp; omega) (by simp [Stream.isAzure]) st out s' hr
+    exact ⟨r', by rw [ho, hr']; simp⟩
+
+/-- … and a pattern that ends with a drain loop `while b := read(n)` (n ≥ 1) yields exactly the first `lim` bytes. -/
+theorem truncated_reader_drain_exact (ch : Blob → List Blob) (hch : ∀ b, (ch b).flatten = b) (ps : List Blob)
+    (hps : ∀ p ∈ ps, p ≠ []) (lim : Nat) (pre : List Op) (n : Nat) (hn : 1 ≤ n) (out : Blob) (s' : Stream)
+    (h : run ch ps.flatten (.file { pieces := ps, offset := 0, limit := some lim }) (pre ++ [.drain n]) [] = (.ok, out, s')) :
+    out = ps.flatten.take lim := by
+  have hg : Good false ps.flatten (.file { pieces := ps, offset := 0, limit := some lim }) (ps.flatten.take lim) :=
+    ⟨⟨hps, fun l hl => by cases hl; exact Nat.zero_le _⟩, by simp [FileSt.content], by simp⟩
+  rw [run_append] at h
+  cases hr : run ch ps.flatten (.file { pieces := ps, offset := 0, limit := some lim }) pre [] with
+  | mk st rest =>
+    obtain ⟨out1, s1⟩ := rest
+    obtain ⟨d, r', ho, hr', hres⟩ := run_spec false ch hch ps.flatten pre _ _ [] hg (by simp; omega) (by simp [Stream.isAzure]) st out1 s1 hr
+    rw [hr] at h
+    rcases hres with ⟨rfl, hg', _⟩ | rfl
+    · simp only at h
+      have hl : r'.length ≤ ps.flatten.length := by
+        have h1 := congrArg List.length hr'
+        rw [List.length_append, List.length_take] at h1
+        omega
+      have := run_last_complete false ch hch ps.flatten s1 r' out1 (.drain n) hg' hl (Or.inr ⟨n, hn, rfl⟩) out s' h
+      rw [this, ho, hr']; simp
+    · simp at h
+
+/-! ## `open_from` followed by a read pattern -/
+
+/-- the pattern ends with `read(-1)` or with a drain loop `while b := read(n)`, n ≥ 1 -/
+def EndsComplete (ops : List Op) : Prop :=
+  ∃ pre last, ops = pre ++ [last] ∧ (last = .call .readAll ∨ ∃ n, 1 ≤ n ∧ last = .drain n)
+
+/-- **The property for `open_from`** (full statement): whatever the read pattern,
+* the only exception is `UnexpectedEOFError`,
+* the bytes handed out so far are a prefix of `blob[start : start+len]` — never a byte outside the requested range,
+* if the pattern ends with `read(-1)` or a drain loop and no exception was raised, exactly `blob[start : start+len]` was handed out. -/
+def OpenFromExact (ch : Blob → List Blob) (be : Backend) (blob : Blob) (start : Nat) (len : Option Nat) (ops : List Op) : Prop :=
+  let res := openRun ch be blob start len ops
+  (res.1 = .ok ∨ res.1 = .eof) ∧ res.2.1 <+: wanted blob start len ∧
+    (res.1 = .ok → EndsComplete ops → res.2.1 = wanted blob start len)
+
+private theorem open_from_core (ch : Blob → List Blob) (hch : ∀ b, (ch b).flatten = b) (be : Backend) (blob : Blob) (start : Nat)
+    (len : Option Nat) (ops : List Op) (hsafe : be = .azure → ∀ op ∈ ops, op ≠ .call .readAll) :
+    OpenFromExact ch be blob start len ops := by
+  unfold OpenFromExact openRun
+  have hopen := openFrom_spec ch hch be blob start len
+  cases ho : openFrom ch be blob start len with
+  | assertion => rw [ho] at hopen; exact absurd hopen id
+  | eofAtOpen req =>
+    refine ⟨?_, ?_, ?_⟩ <;> simp
+  | stream s req =>
+    rw [ho] at hopen
+    obtain ⟨hg, haz, _⟩ := hopen
+    simp only
+    have hwl := wanted_length_le blob start len
+    cases hr : run ch blob s ops [] with
+    | mk st rest =>
+      obtain ⟨out, s'⟩ := rest
+      obtain ⟨d, r', hout, hw, hres⟩ := run_spec true ch hch blob ops s _ [] hg hwl (fun ha => hsafe (haz ha)) st out s' hr
+      simp only [List.nil_append] at hout
+      subst hout
+      refine ⟨by rcases hres with ⟨h, _⟩ | h <;> simp [h], ⟨r', hw.symm⟩, ?_⟩
+      rintro rfl ⟨pre, last, rfl, hlast⟩
+      rw [run_append] at hr
+      cases hp : run ch blob s pre [] with
+      | mk st1 rest1 =>
+        obtain ⟨out1, s1⟩ := rest1
+        have hsafe' : s.isAzure = true → ∀ op ∈ pre, op ≠ .call .readAll :=
+          fun ha op hop => hsafe (haz ha) op (List.mem_append_left _ hop)
+        obtain ⟨d1, r1, ho1, hw1, hres1⟩ := run_spec true ch hch blob pre s _ [] hg hwl hsafe' st1 out1 s1 hp
+        rw [hp] at hr
+        rcases hres1 with ⟨rfl, hg1, haz1⟩ | rfl
+        · simp only at hr
+          have hl : r1.length ≤ blob.length := by
+            have := congrArg List.length hw1; simp at this; omega
+          have hlast' : (last = .call .readAll ∧ true = true ∧ s1.isAzure = false) ∨ ∃ n, 1 ≤ n ∧ last = .drain n := by
+            rcases hlast with rfl | h
+            · left
+              refine ⟨rfl, rfl, ?_⟩
+              cases hz : s1.isAzure with
+              | false => rfl
+              | true =>
+                have hbe := haz (by rw [← haz1]; exact hz)
+                exact absurd rfl (hsafe hbe (.call .readAll) (by simp))
+            · exact Or.inr h
+          have := run_last_complete true ch hch blob s1 r1 out1 last hg1 hl hlast' out s' hr
+          rw [this, ho1, hw1]; simp
+        · simp at hr
+
+/-- The property holds in full for the local, Google Cloud Storage and S3 backends. -/
+theorem open_from_exact (ch : Blob → List Blob) (hch : ∀ b, (ch b).flatten = b) (be : Backend) (hbe : be ≠ .azure) (blob : Blob)
+    (start : Nat) (len : Option Nat) (ops : List Op) : OpenFromExact ch be blob start len ops :=
+  open_from_core ch hch be blob start len ops (fun h => absurd h hbe)
+
+/-- **Finding** — the full statement is false for Azure.  Witness: blob `[1,2]`, `open_from(url, 0, length=1)`, `readexactly(1)`,
+`read()`: the second call downloads `length` bytes again from the advanced offset and hands out byte `2`, outside the range. -/
+theorem azure_open_from_exact_refuted :
+    ¬ ∀ blob start len ops, OpenFromExact (pieces 0) .azure blob start len ops := by
+  intro h
+  have h2 := (h [1, 2] 0 (some 1) [.call (.exactly 1), .call .readAll]).2.1
+  exact absurd h2 (by decide)
+
+/-- Second symptom of the same branch: `read()` when the position is at the end of the blob lets the SDK's 416 error escape
+(neither bytes nor `UnexpectedEOFError`).  Witness: 1-byte blob, `open_from(url, 0)`, `readexactly(1)`, `read()`. -/
+theorem azure_open_from_http416_escapes :
+    (openRun (pieces 0) .azure [7] 0 none [.call (.exactly 1), .call .readAll]).1 = .http416 := by decide
+
+/-- Azure, partial: the property holds for every pattern that contains no `read(-1)`.
+Missing for the full statement: `AzureReadableStream.read(-1)` ignores the bytes already handed out (`_length` is not reduced,
+the 416 answer is not mapped); see the two theorems above. -/
+theorem azure_open_from_exact_partial (ch : Blob → List Blob) (hch : ∀ b, (ch b).flatten = b) (blob : Blob) (start : Nat)
+    (len : Option Nat) (ops : List Op) (hops : ∀ op ∈ ops, op ≠ .call .readAll) :
+    OpenFromExact ch .azure blob start len ops :=
+  open_from_core ch hch .azure blob start len ops (fun _ => hops)
+
+/-! ## `read_from` -/
+
+/-- `read_from(url, start)` returns `blob[start:]`, or raises `UnexpectedEOFError` and then `start` is at/after the end (cloud backends) -/
+theorem read_from_exact (ch : Blob → List Blob) (hch : ∀ b, (ch b).flatten = b) (be : Backend) (hbe : be ≠ .azure) (blob : Blob)
+    (start : Nat) :
+    ((readFrom ch be blob start).1 = .ok ∧ (readFrom ch be blob start).2.1 = blob.drop start) ∨
+      ((readFrom ch be blob start).1 = .eof ∧ blob.length ≤ start) := by
+  have h := open_from_exact ch hch be hbe blob start none [.call .readAll]
+  unfold OpenFromExact at h
+  obtain ⟨hst, _, hall⟩ := h
+  unfold readFrom
+  rcases hst with hok | heof
+  · left
+    exact ⟨hok, by simpa [wanted] using hall hok ⟨[], _, rfl, Or.inl rfl⟩⟩
+  · right
+    refine ⟨heof, ?_⟩
+    -- an EOF status can only come from a 416 at open time
+    have hopen := openFrom_spec ch hch be blob start none
+    unfold openRun at heof
+    cases ho : openFrom ch be blob start none with
+    | assertion => rw [ho] at hopen; exact absurd hopen id
+    | eofAtOpen req => rw [ho] at hopen; exact hopen
+    | stream s req =>
+      rw [ho] at hopen heof
+      obtain ⟨hg, haz, _⟩ := hopen
+      simp only [run] at heof
+      have hs := step_spec true ch hch blob s _ .readAll hg
+        (fun ha => absurd (haz ha) hbe)
+      cases hstep : step ch blob s .readAll with
+      | ok b s1 => rw [hstep] at heof; simp at heof
+      | eof s1 =>
+        rw [hstep] at hs
+        rcases hs with ⟨n, hn, _⟩ | hnil
+        · cases hn
+        · simp only [wanted] at hnil
+          have := congrArg List.length hnil
+          simp at this; omega
+      | http416 s1 => rw [hstep] at hs; exact absurd hs id
+
+/-- Azure, partial: `read_from` is exact when `start` lies inside the blob. -/
+theorem azure_read_from_partial (ch : Blob → List Blob) (blob : Blob) (start : Nat) (h : start < blob.length) :
+    (readFrom ch .azure blob start).1 = .ok ∧ (readFrom ch .azure blob start).2.1 = blob.drop start := by
+  simp [readFrom, openRun, openFrom, run, step, AzSt.readAll, azDownload, h, wanted]
+
+/-- **Finding** — Azure `read_from` at/after the end of the blob: the SDK's 416 error escapes (GCS/S3 raise `UnexpectedEOFError`,
+the local backend returns `b''`).  Witness: the empty blob, `read_from(url, 0)`. -/
+theorem azure_read_from_refuted :
+    ¬ ∀ blob start, ((readFrom (pieces 0) .azure blob start).1 = .ok ∨ (readFrom (pieces 0) .azure blob start).1 = .eof) := by
+  intro h
+  exact absurd (h [] 0) (by decide)
+
+/-! ## `read_range` -/
+
+/-- **`read_range(url, start, end, end_inclusive)`** on all four backends: with `n = end - start + [inclusive] ≥ 0`, the call returns
+exactly `blob[start : start+n]` when those `n` bytes exist, and raises `UnexpectedEOFError` (returning nothing) otherwise. -/
+theorem read_range_exact_or_eof (ch : Blob → List Blob) (hch : ∀ b, (ch b).flatten = b) (be : Backend) (blob : Blob)
+    (start : Nat) (end_ : Int) (incl : Bool) (hn : 0 ≤ end_ - start + (if incl then 1 else 0)) :
+    let n := (end_ - start + (if incl then 1 else 0)).toNat
+    let res := readRange ch be blob start end_ incl
+    if (slice blob start n).length = n then res.1 = .ok ∧ res.2.1 = slice blob start n
+    else res.1 = .eof ∧ res.2.1 = [] := by
+  intro n res
+  have hres : res = openRun ch be blob start (some n) [.call (.exactly n)] := by
+    simp only [res, readRange]
+    rw [if_neg (by omega)]
+  rw [hres]
+  unfold openRun
+  have hopen := openFrom_spec ch hch be blob start (some n)
+  cases ho : openFrom ch be blob start (some n) with
+  | assertion => rw [ho] at hopen; exact absurd hopen id
+  | eofAtOpen req =>
+    rw [ho] at hopen
+    simp only
+    have hnil : slice blob start n = [] := by simp [slice, List.drop_eq_nil_of_le hopen]
+    have hn0 : n ≠ 0 := by
+      intro h0
+      rw [h0] at ho
+      simp [openFrom] at ho
+    rw [hnil]
+    simp only [List.length_nil]
+    rw [if_neg (by omega)]
+    simp
+  | stream s req =>
+    rw [ho] at hopen
+    obtain ⟨hg, _, _⟩ := hopen
+    simp only [run, wanted] at hg ⊢
+    have hs := step_spec true ch hch blob s _ (.exactly n) hg (by intro _; simp)
+    have hle : (slice blob start n).length ≤ n := by simp [slice]; omega
+    cases hstep : step ch blob s (.exactly n) with
+    | ok b s1 =>
+      rw [hstep] at hs
+      obtain ⟨r', hr, _, _, _, hex, _⟩ := hs
+      have hbl := hex n rfl
+      have hl := congrArg List.length hr
+      simp only [List.length_append] at hl
+      have hr'nil : r' = [] := List.eq_nil_of_length_eq_zero (by omega)
+      rw [if_pos (by omega)]
+      simp [hr, hr'nil]
+    | eof s1 =>
+      rw [hstep] at hs
+      simp only
+      by_cases h0 : n = 0
+      · -- length 0 goes to the EmptyReadableStream, whose readexactly(0) succeeds
+        exfalso
+        rw [h0] at ho
+        simp only [openFrom, if_true] at ho
+        cases ho
+        rw [h0] at hstep
+        simp [step] at hstep
+      · have hlt : (slice blob start n).length < n := by
+          rcases hs with ⟨m, hm, hlt⟩ | hnil
+          · cases hm; exact hlt
+          · rw [hnil]; simp; omega
+        rw [if_neg (by omega)]
+        simp
+    | http416 s1 => rw [hstep] at hs; exact absurd hs id
+
+/-- a negative span trips `assert length >= 1` on every backend: nothing is returned -/
+theorem read_range_negative_span (ch : Blob → List Blob) (be : Backend) (blob : Blob) (start : Nat) (end_ : Int) (incl : Bool)
+    (hn : end_ - start + (if incl then 1 else 0) < 0) :
+    (readRange ch be blob start end_ incl).1 = .assertion ∧ (readRange ch be blob start end_ incl).2.1 = [] := by
+  simp [readRange, hn]
+
+/-! ## Non-vacuity: the chunkings used by the check satisfy `hch`, and boundary instances -/
+
+theorem pieces_is_chunking (c : Nat) : ∀ b, (pieces c b).flatten = b := pieces_flatten c
+
+example : rangeHeader 2 (some 3) = some "bytes=2-4" := by decide
+example : rangeHeader 2 none = some "bytes=2-" := by decide
+-- last byte, past EOF, offset = size, invalid (ignored) range
+example : serve [10, 11, 12, 13, 14] ⟨4, some 4⟩ = .part [14] := by decide
+example : serve [10, 11, 12, 13, 14] ⟨3, some 9⟩ = .part [13, 14] := by decide
+example : serve [10, 11, 12, 13, 14] ⟨5, none⟩ = .unsat := by decide
+example : serve [10, 11, 12, 13, 14] ⟨3, some 2⟩ = .full [10, 11, 12, 13, 14] := by decide
+-- read patterns over a body delivered in pieces of 2
+example : openRun (pieces 2) .s3 [1, 2, 3, 4, 5] 1 (some 3) [.call (.exactly 1), .call (.read 5), .drain 1] =
+    (.ok, [2, 3, 4], some "bytes=1-3", []) := by decide
+example : openRun (pieces 2) .localfs [1, 2, 3, 4, 5] 3 (some 9) [.call .readAll] = (.ok, [4, 5], none, []) := by decide
+example : openRun (pieces 1) .azure [1, 2, 3, 4, 5] 1 (some 3) [.drain 2] = (.ok, [2, 3, 4], none, [(1, some 3)]) := by decide
+example : (readRange (pieces 0) .gs [1, 2, 3, 4, 5] 2 10 true).1 = .eof := by decide
+example : (readRange (pieces 0) .azure [1, 2, 3, 4, 5] 2 4 false) = (.ok, [3, 4], none, [(2, some 2)]) := by decide
+example : (readRange (pieces 0) .localfs [] 0 0 false) = (.ok, [], none, []) := by decide
+
 end HailVerif.C23
